@@ -529,4 +529,29 @@ example : Gen.C06F.predict_shape
       (V.ofList [.ellipsis, .none, .slice (.int (-9)) .none (.int 2), .int (-2)]) (ofShape [4, 5, 3])
     = .ok (ofShape [4, 1, 3]) := by decide
 
+open Nb.Py in
+/-- **T13** the translated `calc_slicedefs` — the whole planning stage of `fileslice`: canonicalise, reverse
+    for C order, optimise the read slicers, make the segments, drop identity post-slicers, predict the read
+    shape, reverse back — returns exactly the model's slice definitions for EVERY index tuple with non-zero
+    slice steps, shape, item size, offset, memory order and heuristic, and raises whenever the model does.
+    The model's `fileslice` is `calcSlicedefs` followed by reading the segments, reshaping and post-slicing,
+    so `fileslice_eq_numpy` / `reads_within_extent` speak about what the CURRENT source plans to read; what
+    remains hand-modelled is `read_segments` (I/O) and the final `ndarray(...)[post_slicers]`. -/
+theorem source_calc_slicedefs_eq (h : Heuristic) (idx : List IdxItem) (shape : List Nat) (isz off : Nat)
+    (o : Order) (hv : ∀ s, IdxItem.slice s ∈ idx → s.Valid) :
+    match calcSlicedefs h idx shape isz off o with
+    | .ok d => Gen.C06F.calc_slicedefs (V.ofList (idx.map ofIdx)) (ofShape shape) (.int (isz : Int))
+          (.int (off : Int)) (ofOrder o) (liftH h) =
+        .ok (.tup3 (ofSegs d.segments) (ofShape (orient o d.readShape))
+              (V.ofList ((if d.post.all isFullPost then [] else orient o d.post).map ofPost)))
+    | .error _ => ∃ e, Gen.C06F.calc_slicedefs (V.ofList (idx.map ofIdx)) (ofShape shape) (.int (isz : Int))
+          (.int (off : Int)) (ofOrder o) (liftH h) = .error e :=
+  gen_calc_slicedefs_eq h idx shape isz off o hv
+
+open Nb.Py in
+example : Gen.C06F.calc_slicedefs (V.ofList [.slice .none .none (.int (-2)), .none, .int (-1)]) (ofShape [5, 3])
+      (.int 2) (.int 10) (.str "C") (liftH (fun _ _ _ => .skip))
+    = .ok (.tup3 (ofSegs [⟨14, 2⟩, ⟨26, 2⟩, ⟨38, 2⟩]) (ofShape [3, 1])
+        (V.ofList [.slice .none .none (.int (-1)), .slice .none .none .none])) := by decide
+
 end Nb.C06
